@@ -1,7 +1,8 @@
 import SudsModel.Driver.Util
 import SudsModel.Xsd.DepSort
+import SudsModel.Xsd.Qualify
 namespace Suds.Driver.C07
-open Lean Suds.Driver Suds.Xsd
+open Lean Suds.Driver Suds.Xsd Suds.Xml
 
 def graphOf (j : Json) : Graph :=
   (jarr j "graph").toList.map fun e =>
@@ -10,6 +11,14 @@ def graphOf (j : Json) : Graph :=
 def handle : Handler := fun op j =>
   match op with
   | "depsort" => some (Json.arr ((depsort (graphOf j)).map (fun (n : Nat) => (n : Json))).toArray)
+  | "qualify" =>
+    let ctx : Ctx := (jarr j "ctx").toList.map fun sc =>
+      ((jarr sc "nsp").toList.map (fun pu => ((asStr? ((asArr pu)[0]?.getD Json.null)).getD "",
+                                               (asStr? ((asArr pu)[1]?.getD Json.null)).getD "")),
+       jstr? sc "expns")
+    some (match qualifyRef (jstr j "ref") ctx (jstr? j "tns") with
+      | none => Json.mkObj [("err", "prefix not resolved")]
+      | some (n, u) => Json.arr #[.str n, match u with | some x => .str x | none => .null])
   | _ => none
 
 end Suds.Driver.C07
